@@ -147,6 +147,7 @@ def run_scenario(sc, base, repo, harness):
                 q = subprocess.Popen(["/bin/true"])
                 q.wait()
                 Path(j["pid"]).write_text(json.dumps({"type": "local", "pid": q.pid}))
+                j["stalepid"] = q.pid
         out["pre_paths"] = info
 
     runs = {(r["sid"], r["run"]): r for r in sc["runs"]}
@@ -215,7 +216,7 @@ def run_scenario(sc, base, repo, harness):
             if i not in fired and cond(e["when"], now, text):
                 act(e["do"])
                 fired[i] = now
-        all_fired = len(fired) == len(script)
+        all_fired = all(i in fired or e.get("optional") for i, e in enumerate(script))
         all_dead = all(p.poll() is not None for p in procs.values())
         if all_fired and all_dead:
             break
@@ -229,7 +230,7 @@ def run_scenario(sc, base, repo, harness):
     except OSError:
         out["quiet_s"] = None
     out["alive_at_end"] = [f"{k[0]}.{k[1]}" for k, p in procs.items() if p.poll() is None]
-    out["unfired"] = [i for i in range(len(script)) if i not in fired]
+    out["unfired"] = [i for i, e in enumerate(script) if i not in fired and not e.get("optional")]
     # let everything that is still there finish, then make sure nothing survives the scenario
     (ctl / "latch.all").touch()
     text = log_text()
